@@ -61,7 +61,7 @@ def _payload(r, version: str) -> Dict[str, Any]:
     for _ in range(r.randint(0, 3)):
         a, b = r.choice(["n1", "n.2", "ü", "a.b"]), r.choice(["n1", "n.2", "z"])
         s, d = (a, b) if a <= b else (b, a)
-        edges["%s→%s" % (s, d)] = {"id": "%s→%s" % (s, d), "src": s, "dst": d, "rel": "coact", "weight": round(r.uniform(-1, 1), 3), "updated_at": None, "attrs": {}}
+        edges["%s→%s" % (s, d)] = {"id": "%s→%s" % (s, d), "src": s, "dst": d, "rel": "coact", "weight": r.choice([round(r.uniform(-1, 1), 3), 0.3, 0.0, 1e-13]), "updated_at": None, "attrs": {}}
     weights = [{"target_kind": "node", "target_id": r.choice(["n1", "n.2", "ü"]), "attr": "weight", "value": round(r.uniform(-1, 1), 3)} for _ in range(r.randint(0, 3))]
     p = {"schema_version": "v1", "version_etag": version, "turn": r.randint(0, 9), "agent": "Ambrose", "store": {"weights": weights},
          "gel": {"nodes": nodes, "edges": edges, "meta": {"schema": "v1.1", "merges": [], "splits": [], "promotions": [], "concept_nodes_count": 0,
@@ -74,6 +74,20 @@ def _payload(r, version: str) -> Dict[str, Any]:
 def _mutate(r, base: Dict[str, Any]) -> List[Dict[str, Any]]:
     """Edits as data (so they can be minimised)."""
     edits = []
+    # nudge existing float leaves by less than any "tolerance": the reconstruction must be EXACT
+    floats = []
+
+    def walk(o, path):
+        if isinstance(o, dict):
+            for k, v in o.items():
+                walk(v, path + [k])
+        elif isinstance(o, float):
+            floats.append((path, o))
+    walk(base, [])
+    for path, val in floats:
+        if r.chance(0.25):
+            import math as _m
+            edits.append({"path": path, "kind": "set", "value": r.choice([_m.nextafter(val, 2.0), _m.nextafter(val, -2.0), val + 1e-13, val * (1 + 1e-15), 0.1 + 0.2 if val == 0.3 else val - 1e-14])})
     for _ in range(r.randint(0, 6)):
         edits.append({"path": [r.choice(["gel", "store", r.choice(KEYS)])] + [r.choice(KEYS + ["nodes", "edges"]) for _ in range(r.randint(0, 2))],
                       "kind": r.choice(["set", "set", "del"]), "value": _val(r)})
